@@ -421,6 +421,7 @@ package datastore
 //@ func (*Datastore).Get
 //@   props C14
 //@   requires d != nil && d.cacheClient != nil && d.schemaClient != nil && d.config != nil
+//@   uses getStores: none
 //@   let enc = req.GetEncoding()
 //@   let intendedState = req.GetDatastore().GetType() == sdcpb.Type_INTENDED && req.GetDataType() == sdcpb.DataType_STATE
 //@   let npaths = len(req.GetPath())
